@@ -279,8 +279,20 @@ fn built_strategy() -> BoxedStrategy<BuiltCase> {
 }
 
 fn check_built(c: &BuiltCase, ctx: &Ctx) -> Outcome {
-    let (_a, samples) = gen::materialise_set_plain(&c.set);
+    let (_a, mut samples) = gen::materialise_set_plain(&c.set);
     let (k, rc) = (c.set.k, c.set.rc);
+    // one case in eight: 70-77 samples (the generated ones over and over, under new names), built with 8 or 16 threads
+    let many = (k / 2 + samples.len() + c.set.anc.len()) % 8 == 0;
+    if many {
+        let base = samples.clone();
+        let mut j = 0;
+        while samples.len() < 70 + base.len() {
+            let (n, r) = &base[j % base.len()];
+            samples.push((format!("{n}_c{j}"), r.clone()));
+            j += 1;
+        }
+    }
+    let build_threads = if many { 8 + 8 * (k / 2 % 2) } else { 1 };
     let (_d, t) = model_table(&samples, k, rc);
     if t.rows.values().flatten().any(|b| model::sym_is_ambig(*b)) {
         return Outcome::Reject("table has ambiguity codes (outside the property's domain)".into());
@@ -289,7 +301,7 @@ fn check_built(c: &BuiltCase, ctx: &Ctx) -> Outcome {
     let exp = model_distance(&t, c.freq.ceil(n));
     let dir = ctx.case_dir();
     let r: Result<(), Outcome> = (|| {
-        must_ok(&build(ctx, &dir, "x", &samples, k, rc, 1), "ska build")?;
+        must_ok(&build(ctx, &dir, "x", &samples, k, rc, build_threads), "ska build")?;
         let fa = c.freq.arg(n);
         let ts = c.threads.to_string();
         // -o into an existing, longer file: it must be replaced
@@ -318,7 +330,9 @@ fn check_built(c: &BuiltCase, ctx: &Ctx) -> Outcome {
                 let f: Vec<&str> = l.split('\t').collect();
                 f[2] != "0.00" && f[3] != "0.00000"
             });
-            pass(both, key_of(&(k, rc, &c.freq, &samples)), if both { vec!["pair_with_snp_and_mismatch"] } else { vec![] })
+            let mut cl = if both { vec!["pair_with_snp_and_mismatch"] } else { vec![] };
+            if many { cl.push(">=70_samples_built_with_8_or_16_threads"); }
+            pass(both, key_of(&(k, rc, &c.freq, &samples)), cl)
         }
     }
 }
